@@ -238,6 +238,12 @@ def run(ctx):
             else:
                 mi = sorted({x.split(":")[1] for x in m["diags"] if not x.startswith("warning")})
                 ii = r.error_ids()
+                if "odd-address" in mi and "odd-address" in ii:
+                    # a refused word list on an odd address leaves the labels behind it odd in the code, which goes on
+                    # and also refuses the branches to them; the model stops counting at the refused list
+                    ii = [x for x in ii if x != "odd-branch"]
+                    mi = [x for x in mi if x != "odd-branch"]
+                    ctx.count("refused programs with a word list on an odd address (error kinds compared without 'odd-branch')")
                 if "aborted" not in m.get("note", "") and mi != ii:
                     problems.append("error kinds: model %s impl %s" % (mi, ii))
         else:
